@@ -6,7 +6,7 @@ from . import common
 
 ID = "C18"
 LEVEL = "exploration"
-TECHNIQUE = "deterministic simulation; a shadow transaction counter fed from the packages and instruction reports seen at the execution seam is compared with the client's counters after every request and execution, hour restarts and blocking verdicts recomputed from the simulated clock (World A); concurrent completion at handler granularity and opcode-level pre-emption of add_transaction are covered by Worlds B/C where built"
+TECHNIQUE = "deterministic simulation; a shadow transaction counter fed from the packages and instruction reports seen at the execution seam is compared with the client's counters after every request and execution, hour restarts and blocking verdicts recomputed from the simulated clock (World A); requests validated while executions finish on pool tasks in any order under clock ticks of up to an hour (World B); opcode-level pre-emption of concurrent add_transaction calls (World C)"
 BUDGET = {"quick": {"runs": 10000, "wall": 45}, "thorough": {"runs": 500000, "wall": 900}}
 RULE = (
     "one evaluation = one seeded backtest over 1-3 sequential markets whose publish times cross hour and day boundaries (and jump backwards between markets), "
@@ -24,6 +24,19 @@ HOUR = 3600_000
 
 
 def generate(rng, i, tier):
+    if rng.random() < 0.12:
+        # World B: requests validated on the main loop while executions finish on pool tasks in any order; clock ticks of
+        # up to an hour between steps
+        from .. import livegen
+
+        sc = livegen.gen_live(rng, "C12" if rng.random() < 0.4 else "C11")
+        sc.pop("crash_at", None)
+        sc.pop("foreign_bets", None)
+        sc["clients"] = [{"limit": rng.choice([0, 1, 3, 5, 20, None])}]
+        sc["idle_ticks"] = True
+        sc["tick_seconds"] = rng.choice([0.25, 600.0, 1800.0, 3600.0])
+        sc["live_c18"] = True
+        return sc
     if rng.random() < 0.15:
         # World C: opcode-level pre-emption of concurrent add_transaction calls
         return {"world": "C", "calls": [[rng.randint(1, 5), rng.random() < 0.35] for _ in range(rng.choice([2, 2, 3]))], "tape": [rng.randrange(1000) for _ in range(300)]}
@@ -48,6 +61,11 @@ def generate(rng, i, tier):
 
 
 def execute(scenario):
+    if scenario.get("live_c18"):
+        from .. import live
+        from ..oracles.transactions import LiveTransactionMonitor
+
+        return live.run_scenario(scenario, [LiveTransactionMonitor], owner=ID)
     if scenario.get("world") == "C":
         from .. import opcode
 
@@ -56,12 +74,20 @@ def execute(scenario):
 
 
 def sample_view(scenario):  # noqa: F811
+    if scenario.get("live_c18"):
+        from . import C11
+
+        return C11.sample_view(scenario)
     if scenario.get("world") == "C":
         return scenario
     return common.sample_view(scenario)
 
 
 def shrink(scenario, test, deadline):  # noqa: F811
+    if scenario.get("live_c18"):
+        from . import C11
+
+        return C11.shrink_live(scenario, test, deadline)
     if scenario.get("world") == "C":
         tape = list(scenario["tape"])
         while len(tape) > 2 and test(dict(scenario, tape=tape[: len(tape) // 2])):
